@@ -140,9 +140,42 @@ def betas_rule(ctx, facts):
             ctx.violation("BETAS", fid, "increment", hirq.loc(u), "the race must add self.%s[counter] * draw and then advance the counter exactly once per draw; counter `%s` is defined by %s" % (table, cnt, ds))
 
 
+def weight_rule(ctx, facts):
+    """WEIGHT: the race value offered to a register depends on the item's weight and on the item's generator (h = x / w)"""
+    import fnmatch
+    from ..rulelib import slicer_of
+    from .. import slicer
+    for (fid, _allowed) in C02.RACE_FNS:
+        fn = facts.fn(fid)
+        sl = slicer_of(fn)
+        wpat = "param #2:*" if fid.endswith("hash_item") else "param #1:*.1"
+        kpat = "param #1:*" if fid.endswith("hash_item") else "param #1:*.0"
+        for u in self_method_calls(fn, C02.TRACKER, ["update"]):
+            hv = nf.strip(u["args"][1])
+            exprs = [u["args"][1]]
+            if hv["k"] == "Path" and "local" in hv["res"]:
+                # every definition of the race value must carry the weight on its own (the slice is flow-insensitive)
+                exprs = [d["r"] if d["k"] == "AssignOp" else d for d in def_exprs(fn, hv["res"]["name"])]
+            bad = None
+            for e in exprs:
+                roots = {slicer.show_root(r) for r in sl.roots(e)}
+                if not any(fnmatch.fnmatchcase(r, wpat) or r.startswith("self.to_be_processed.1") for r in roots):
+                    bad = (e, roots)
+            roots_all = {slicer.show_root(r) for r in sl.roots(u["args"][1])}
+            hask = any(fnmatch.fnmatchcase(r, kpat) or r.startswith("self.to_be_processed") for r in roots_all)
+            if bad is None and hask:
+                ctx.ok("WEIGHT", fid, "every definition of the race value (%d) depends on the item's weight; the value depends on the item's generator" % len(exprs), hirq.loc(u))
+            elif bad is not None:
+                ctx.violation("WEIGHT", fid, "race value ignores the weight", hirq.loc(bad[0]),
+                              "the race value is defined here as `%s`, which does not depend on the item's weight (roots %s)" % (nf.nf(bad[0], True)[:80], sorted(bad[1])[:6]))
+            else:
+                ctx.violation("WEIGHT", fid, "race value ignores the item", hirq.loc(u), "the value offered to the register does not depend on the item's generator: roots %s" % sorted(roots_all)[:8])
+
+
 def run(ctx, facts):
     for k, v in RULES.items():
         ctx.rule(k, v)
+    ctx.rule("WEIGHT", "the race value offered to a register depends on both the item's weight and the item's generator (h = x / w): a race that ignores the weights estimates the plain, not the probability-weighted, similarity")
     for k in ("SEED", "SHASEED", "RNGPROTO", "GUARD", "WRITERS", "EXIT", "BAND", "RESETBEFORE", "TRACKERSHAPE"):
         ctx.rule(k, C02.RULES.get(k, ""))
     ctx.extra["explanation"] = (
@@ -157,6 +190,7 @@ def run(ctx, facts):
     ctx.extra["explanation"] = ctx.extra["explanation"]
     lambda_rule(ctx, facts)
     betas_rule(ctx, facts)
+    weight_rule(ctx, facts)
     C14.est_template(ctx, facts, "jaccard::compute_probminhash_jaccard")
     C14.est_template(ctx, facts, "jaccard::get_jaccard_index_estimate")
     C15.tree_step(ctx, facts)
